@@ -2595,6 +2595,17 @@ func (db *DB) checkpointWithExecutor(ctx context.Context, mode string, exec *syn
 			s.checkpointMode = mode
 			s.lastSyncedWALOffset = exec.state.lastSyncedWALOffset
 		})
+	// Without the barrier the copy above is not sealed: commits may land
+	// between it and the checkpoint, which backfills them and, for TRUNCATE,
+	// drops them from the WAL. From here on the last copy can no longer be
+	// said to reach the WAL end, so if this call fails after the checkpoint
+	// has run the next verify() must not take the truncation for an expected
+	// one and continue incrementally.
+	copiedToWALEnd := exec.state.syncedToWALEnd
+	if barrierTx == nil {
+		exec.state.syncedToWALEnd = false
+	}
+
 	walFrameN, err := db.execCheckpoint(ctx, mode)
 	if err != nil {
 		return false, err
@@ -2643,6 +2654,8 @@ func (db *DB) checkpointWithExecutor(ctx context.Context, mode string, exec *syn
 	// backfilled and truncated unseen, so TRUNCATE must take the boundary
 	// snapshot unconditionally.
 	if mode != CheckpointModeTruncate && walFrameN <= preCheckpointFrameN {
+		// The frame count shows that nothing landed after the copy.
+		exec.state.syncedToWALEnd = copiedToWALEnd
 		result, err = db.verifyAndSyncWithExecutor(ctx, true, exec, 0)
 		if err != nil {
 			return false, fmt.Errorf("cannot copy wal after checkpoint: %w", err)
